@@ -94,6 +94,9 @@ type GenOpts struct {
 	ValueFor func(rng *Rand, g uint16, num byte) (v uint64, ok bool)
 	// SizeFor overrides the definition size of a field (ok=false: default).
 	SizeFor func(rng *Rand, g uint16, num byte) (size byte, ok bool)
+	// PostData may rewrite the field bytes of a data record after all fields were drawn
+	// (values that depend on each other, as a device writes them).
+	PostData func(rng *Rand, def *ref.Record, data [][]byte)
 }
 
 // KnownMesgs returns the known message numbers, sorted.
@@ -807,6 +810,9 @@ func (g *PlanGen) Data(local byte) {
 	}
 	for _, dd := range def.Dev {
 		r.Data = append(r.Data, rng.Bytes(int(dd.Size)))
+	}
+	if g.O.PostData != nil {
+		g.O.PostData(rng, def, r.Data)
 	}
 	g.P.Records = append(g.P.Records, r)
 }
